@@ -44,6 +44,9 @@ CASES = [
     ('true && {code} evaluates the code', 'private _r = 0; private _b = true && { _r = 1; false }; [_b, _r]', '[false,1]'),
     ('true || {code} does not evaluate the code', 'private _r = 0; private _b = true || { _r = 1; false }; [_b, _r]', '[true,0]'),
     ('false || {code} evaluates the code', 'private _r = 0; private _b = false || { _r = 1; true }; [_b, _r]', '[true,1]'),
+    ('catch binds the thrown value', 'try { throw "boom"; "not reached" } catch { _exception }', 'boom'),
+    ('try without a throw yields the value of the try block', 'try { "fine" } catch { "caught" }', 'fine'),
+    ('statements behind a throw are not executed', 'private _r = 0; try { throw 1; _r = 1 } catch { }; _r', '0'),
 ]
 def search(sqfvm):
     for (name, code, want) in CASES:
